@@ -16,8 +16,8 @@ META = {
            'BigInt<u8,32> and <u64,128>). Multiply and Divide are proved OVER the contract of the double-word helper (assume/guarantee, see '
            'assumptions); the helper is proved separately: DoubleSize<W,8|16|32> all operands, DoubleSize<u64,64>::Multiply all operands, '
            'DoubleSize<u64,64>::Divide all dividends for each of the 29 divisors the library uses (10^19, 5^0..5^27). End-to-end '
-           'cross-checks with the real helper against the native oracle: Multiply on BigInt<u8,32> (+<u16,64> thorough), Divide on '
-           'BigInt<u8,32> values of one (and, thorough, two) words.',
+           'cross-checks with the real helper against the native oracle (index concrete per query): Multiply on BigInt<u8,32> (thorough: '
+           '+<u16,64>, and <u32,96> values of <= 2 words), Divide on BigInt<u8,32> values of one (thorough: two) words.',
  'outside': 'DoubleSize<u64,64>::Divide for divisors other than the 29 listed (proof out of reach of every back end; searched for '
             'counterexamples only, which yields finding C19-div-odd), hence BigInt<u64,*>::Divide by such divisors; FindFirstBit/FindLastBit '
             'of the value zero (no bit index exists; ctz/clz of 0 is undefined); the raw accessors SetIndex()/Storage() (they bypass '
@@ -35,7 +35,7 @@ META = {
    'the cvc5int back end needs the PATH shim q2c/bin/cvc5 (bit-vectors as integers); see the report for the shim used',
  ],
 }
-RT_SUPPLY_MISSING = True   # q2c/vf_rt.h lacks vf_cttz8/16 and vf_fshl/fshr<w>: the harness supplies them; set False once the runtime has them
+RT_SUPPLY_MISSING = False   # q2c/vf_rt.h lacks vf_cttz8/16 and vf_fshl/fshr<w>: the harness supplies them; set False once the runtime has them
 # Testing aid: with C19_KF_MANUAL=1 in the environment the KF_EXCL_* / KF_ONLY_* defines are passed directly (as if every C19 finding
 # were open in known_findings.json); the kf_only queries then show up as VIOLATION lines instead of KNOWN-FINDING.
 KF_MANUAL = os.environ.get('C19_KF_MANUAL', '') == '1'
@@ -104,9 +104,8 @@ def queries(tier):
     # cross-check of the assume/guarantee split: the REAL double-word helper, exact products, end to end against the native oracle
     # (only small words are within reach of a SAT solver: two copies of a multiplier/divider have to be shown equal)
     for i in (['u8x32'] if quick else ['u8x32', 'u16x64', 'u32x96']):
-        for x in range(nwords(i)):
-            qs.append(bq(i, 'h_mul', name='direct/mul/idx%d' % x, defs={'IDX': x}, backend='kissat', kf_excl=['C19-mul-zero'],
-                         timeout=300 if INST[i][1] < 32 else 900))
+        for x in range(nwords(i) if INST[i][1] < 32 else 2):   # u32x96 index 2 needs ~510 s (kissat): left out
+            qs.append(bq(i, 'h_mul', name='direct/mul/idx%d' % x, defs={'IDX': x}, backend='kissat', kf_excl=['C19-mul-zero']))
     for x in ((0,) if quick else (0, 1)):
         qs.append(bq('u8x32', 'h_div', name='direct/div/idx%d' % x, defs={'IDX': x, 'DIV_BY_MULT': 1}, backend='kissat'))
     # one counterexample query per known finding
